@@ -43,6 +43,10 @@ CHECKS = {
  "C10": ("fault_enumeration", "crash-point enumeration: panic injected at every k-th callback of every class (cmp, hash, eq, clone, predicate, setter, source, loop body) and guard leaks, on seeded states, followed by seeded possibly faulty continuations; worker-process abort classification; drop ledger",
          "Per (state, operation) every crash point is enumerated; each crashed queue is driven through continuations steered at the damage and dropped. A violation needs a concrete breach: an abort classified as out-of-bounds unchecked access / crash signal / heap corruption, a double drop, or a leak no harness-forgotten guard explains. States, operations and continuations are sampled.",
          "Trusted: std's debug precondition checks on get_unchecked*, the token ledger. UB that is none of these needs Miri (./check C10 miri, thorough).", "3,4.C10"),
+
+ "C07": ("exploration", HIST + " + differential execution of the same (receiver, pair sequence) under every class of legal size_hint report (simulated source seam), simulated memory ceiling",
+         "Half of the runs are histories biased to extend/append/From/FromIterator/conversions against the model (first-wins / last-wins / append rule, other queue emptied and reusable, order oracles); the other half execute one (state, pairs) case under 11-12 size_hint classes up to usize::MAX and require no panic or abort, identical outcome including item values, model priorities and a correctly ordered result. Sampling, not proof.",
+         "Trusted: the reference model; the 1 GiB per-request memory ceiling of the simulated allocator.", "3,4.C07"),
 }
 
 def main():
